@@ -335,6 +335,13 @@ func c16AddOutputTools(s *Server, plan map[string]*c16OutCase) {
 		}
 		return content(c), map[string]any{"t": 20}, nil
 	})
+	AddTool(s, &Tool{Name: "out-any-required", OutputSchema: explicit}, func(ctx context.Context, r *CallToolRequest, in map[string]any) (*CallToolResult, any, error) {
+		c := pick("out-any-required")
+		if c.ret == "nil" {
+			return content(c), nil, nil
+		}
+		return content(c), map[string]any{"n": 3}, nil
+	})
 	AddTool(s, &Tool{Name: "out-any"}, func(ctx context.Context, r *CallToolRequest, in map[string]any) (*CallToolResult, any, error) {
 		c := pick("out-any")
 		if c.ret == "nil" {
@@ -359,10 +366,11 @@ func c16OutCases() []*c16OutCase {
 	add("out-map", "nil", "m")
 	add("out-slice", "empty", "two")
 	add("out-int", "42")
-	add("out-explicit", "valid", "valid-with-d", "too-big", "wrong-type", "missing-required")
+	add("out-explicit", "valid", "valid-with-d", "too-big", "wrong-type", "missing-required", "nil")
 	add("out-nested-default", "inner-empty", "inner-set", "inner-bad", "outer-empty")
 	add("out-any", "nil", "obj")
 	add("out-any-object-schema", "object", "string", "number", "bool", "array", "empty-array")
+	add("out-any-required", "valid", "nil")
 	return out
 }
 
@@ -409,6 +417,11 @@ func c16ExpectedOutput(c *c16OutCase) string {
 			return `{"o":{"d":"dflt"}}`
 		}
 		return "ERR"
+	case "out-any-required":
+		if c.ret == "valid" {
+			return `{"d":"dflt","n":3}`
+		}
+		return "ERR" // no output at all under a schema with a required member
 	case "out-any-object-schema":
 		if c.ret == "object" {
 			return `{"t":20,"unit":"C"}`
